@@ -1,4 +1,8 @@
+(** Executable entry point of the C13 model (run at exact rationals) and its
+    extraction.  ExtrOcamlBasic only: Z, positive, Q, nat stay inductive. *)
 From Dino Require Import Base.Ops Base.Sums Model.Sigma Extract.Common.
+Require Extraction.
+Require Import ExtrOcamlBasic.
 
 (** arrays: see tools/props/C13.py for the argument conventions. *)
 Definition run_C13 (cmd : Z) (ints : list Z) (arrs : list (list Q)) : option (list Q) :=
@@ -21,3 +25,8 @@ Definition run_C13 (cmd : Z) (ints : list Z) (arrs : list (list Q)) : option (li
                             K (scalar arrs 2 0) (arrf arrs 0) (arrf arrs 1)))
   | _ => None
   end.
+
+Definition run (prop cmd : Z) (ints : list Z) (arrs : list (list Q)) : option (list Q) :=
+  run_C13 cmd ints arrs.
+
+Extraction "Extract/ml/C13/dispatch.ml" run.
